@@ -9,6 +9,7 @@ package header
 //@ pure mandSentinel(t, u, nw, e) = ((t.IsZero() || u.IsZero()) && errors.Is(e, ErrZeroHeader)) || (!t.IsZero() && !u.IsZero() && ((u.ChainID() != t.ChainID() && errors.Is(e, ErrWrongChainID)) || (u.Height() <= t.Height() && errors.Is(e, ErrKnownHeader)) || (u.Time() < t.Time() && errors.Is(e, ErrUnorderedTime)) || (u.Time() > nw + clockDrift && errors.Is(e, ErrFromFuture))))
 
 //@ predicate passedVerify(t H, u H)
+//@ predicate softFailed(t H, u H) -- history: Verify(t, u) returned a soft failure (defined at Verify's exit, used positively only)
 
 //@ func verify(trstd, untrstd)
 //@   props C01
@@ -32,6 +33,7 @@ package header
 //@   ensures [C01] reason: mand(trstd, untrstd, now) && tv != nil ==> ite(asVerr(tv) != nil, asVerr(result) == asVerr(tv), asVerr(result).Reason == tv)
 //@   ensures [C01] clock: now >= old(now)
 //@   defines result == nil ==> passedVerify(trstd, untrstd)
+//@   defines result != nil && asVerr(result) != nil && asVerr(result).SoftFailure ==> softFailed(trstd, untrstd)
 
 //@ func VerifyRange(trstd, untrstdRange)
 //@   props C02
